@@ -19,16 +19,17 @@ Rec == ndJsonDeserialize(IOEnv.TRACE)
 VARIABLE l
 tvars == <<vars, l>>
 
-TInit == l = 1 /\ s = <<>> /\ rest = <<>> /\ txt = <<Q, Q>> /\ pos = 2 /\ esc = FALSE /\ phase = "gen"
+TInit == l = 1 /\ s = <<>> /\ rest = <<>> /\ txt = <<Q, Q>> /\ pos = 2 /\ esc = FALSE /\ phase = "gen" /\ printed = TRUE
 IsEvent(e) == l <= Len(Rec) /\ Rec[l].ev = e /\ l' = l + 1
 
 TReset == /\ IsEvent("reset")
           /\ s' = Rec[l].s /\ rest' = <<>> /\ txt' = <<Q, Q>> /\ pos' = 2 /\ esc' = FALSE /\ phase' = "gen"
+          /\ UNCHANGED printed
 
 TPrinted == /\ IsEvent("printed")
             /\ Strict => Escape(s) = Rec[l].quoted
             /\ txt' = Rec[l].quoted /\ phase' = "gen"
-            /\ UNCHANGED <<s, rest, pos, esc>>
+            /\ UNCHANGED <<s, rest, pos, esc, printed>>
 
 \* the printed lexeme is what precedes the continuation in txt
 Lexeme == SubSeq(txt, 1, Len(txt) - Len(rest))
@@ -41,7 +42,7 @@ TLexed == /\ IsEvent("lexed")
                /\ phase' = IF e = 0 THEN "eof" ELSE "closed"
                /\ Strict => /\ Rec[l].ok = (e # 0)
                             /\ e # 0 => Unescape(SubSeq(t, 2, e - 1)) = Rec[l].val
-          /\ UNCHANGED s
+          /\ UNCHANGED <<s, printed>>
 
 \* verdict of the harness' own round trips (property-level: every position returned s)
 TDone == /\ IsEvent("done")
